@@ -23,12 +23,13 @@ PROPS["C02"] = dict(
         stage("corpus", workers=1),
         stage("automaton"),
         stage("long"),
+        stage("folds"),
         stage("bounded"),
         stage("random", kind="rc", quick=6000, thorough=300000, max_size=100),
     ],
     rule="Local parts are (a) every string prefix+byte+suffix of the automaton-conformance suite, (b) every string of length <= 6 (quick) / <= 8 "
          "(thorough) over 13 class-representative bytes, (c) grammar-generated valid and mutated local parts up to 300 octets, (d) the repository's "
-         "local-part corpus, (e) 29 shapes placing one structural event before / after / inside a run of 1-2100 (thorough 1-8300) octets; each judged in modes 822/5321/5322 against the reference recogniser, with '@' and with NUL after the local part. "
+         "local-part corpus, (e) 29 shapes placing one structural event before / after / inside a run of 1-2100 (thorough 1-8300) octets, (f) all strings of length 7-8 (thorough 7-9) over the quoted-pair / folding symbols {\" \\ CR LF SP . a}; each judged in modes 822/5321/5322 against the reference recogniser, with '@' and with NUL after the local part. "
          "Non-trivial = accepted by the reference, or >= 2 bytes long with a first byte that does not reject at once (atom character or DQUOTE); "
          "distinct = by (mode, bytes) hash.",
     assumptions=["reference recogniser oracle/ref.hpp::local_ok is the specification (written from the statement and RFC 822/5321/5322 grammars)",
@@ -147,12 +148,13 @@ PROPS["C07"] = dict(
     stages=[
         stage("corpus"),
         stage("table"),
+        stage("mass", kind="rc", quick=4, thorough=150, max_size=100),
         stage("random", kind="rc", quick=3000, thorough=250000, max_size=100),
     ],
     rule="Valid, non-reserved host names without root dot whose last label is: every row of data/punycode.csv (as is / upper / alternating case, "
          "after 1-4 leading labels), every proper prefix and proper suffix of a row, one-character extensions at either end, substitutions at 3 "
          "(quick) or all (thorough) positions, hyphenated and doubled neighbours, the row used as first label, the row alone (single label), the "
-         "U-label spelling of every IDN row (mode 6531), random labels and mutated rows, and every line of data/tld-domains.txt. Observed through "
+         "U-label spelling of every IDN row (mode 6531), random labels and mutated rows, every line of data/tld-domains.txt, and mass random unlisted labels through is_tld (100 000 per case: 6 M quick, 240 M thorough - enough to meet a 32-bit hash collision in the thorough tier); local parts vary (short, dotted, long dotted). Observed through "
          "is_<mode>_email(tld on)->rc, eav_is_email with all / no class bits allowed, is_tld and is_utf8_domain. Every case is a table row or a "
          "near miss of one (non-trivial); distinct by domain hash.",
     assumptions=["oracle = data/punycode.csv of the working tree parsed by an independent RFC 4180 reader + the documented class rule",
@@ -167,7 +169,7 @@ PROPS["C08"] = dict(
     level="exploration",
     finite_quantifier=True,   # the property's quantifier is finite and every run enumerates it completely -> evidence.exhaustive = true
     default_binary="c08",
-    binaries={"c08": dict(src=["props/c08.cpp"], variants=["dflt"])},
+    binaries={"c08": dict(src=["props/c08.cpp"], variants=["dflt", "extra"])},
     stages=[
         stage("defaults", workers=1),
         stage("callback"),
@@ -346,7 +348,7 @@ PROPS["C10"] = dict(
 PROPS["C19"] = dict(
     level="fault_enumeration",
     default_binary="c19",
-    binaries={"c19": dict(src=["props/c19.cpp"], variants=["fault"])},
+    binaries={"c19": dict(src=["props/c19.cpp"], variants=["fault", "xfault"])},
     stages=[
         stage("single"),
         stage("random", kind="rc", quick=600, thorough=10000, max_size=100),
@@ -354,7 +356,7 @@ PROPS["C19"] = dict(
     rule="Fault schedules over runs of validations on one eav_t (mode 6531 mixed with ASCII-mode calls, 16 address kinds): a single fault for every "
          "idn2 return code of the installed header (28 constants incl. IDN2_MALLOC, plus unknown -999 / -1 and positive 1 / 7) x {output buffer "
          "produced, not produced} x every conversion position of runs of 1, 2 and 8 validations and the ends and every 7th position of runs of "
-         "50, in 3 workload templates; random schedules of 0-5 faults over runs of 1-50 validations. Non-trivial = a run with at least one fault "
+         "50, in 3 workload templates, in the default and the EAV_EXTRA build (which may convert more than once per validation); random schedules of 0-5 faults over runs of 1-50 validations; the address pool has 24 kinds incl. domains of 1023-5000 octets and ZWJ/ZWNJ domains. Non-trivial = a run with at least one fault "
          "followed by at least one normal validation; distinct by (steps, schedule) hash.",
     assumptions=["faults are injected by redirecting the library's reference to idn2_to_ascii_8z at link time (no source hook)",
                  "allocation failure inside libeav itself is excluded by the statement", "LeakSanitizer's recoverable leak check after each run is the leak oracle"],
